@@ -13,8 +13,20 @@ def scenarios(v):
     from hl7apy.factories import datatype_factory
     out = []
 
-    def add(label, fn):
-        out.append((label, fn))
+    def add(label, fn, dts=("", "")):
+        out.append((label, fn, dts))
+
+    def official(cls, name):
+        """the datatype the version's tables give the named field / component / subcomponent ('' if they give none)"""
+        from .. import tables as T
+        if not name or "_" not in name:
+            return ""
+        owner = name.rsplit("_", 1)[0]
+        if cls is Field:
+            rows = T.seg_rows(v, owner) if owner in T.seg_names(v) else None
+            return next((r["dt"] for r in (rows or []) if r["name"] == name), "")
+        st = T.lib(v).DATATYPES_STRUCTS.get(owner)
+        return next((ref[2] for (n_, ref, _c, _k) in (st or ()) if n_ == name), "")
 
     # A. constructors: name x datatype override x value
     def ctor(cls, name, dt, val):
@@ -29,13 +41,13 @@ def scenarios(v):
         return fn
     for name, dt, val in itertools.product(("PID_3", "PID_8", "PID_7", "OBX_5", "ZIN_1", "PID_99", None),
                                            (None, "ST", "NM", "CX", "IS", "varies"), (None, "x", "1^2", "1^2&3")):
-        add("ctor:Field:%s:%s:%s" % (name, dt, val), ctor(Field, name, dt, val))
+        add("ctor:Field:%s:%s:%s" % (name, dt, val), ctor(Field, name, dt, val), (dt or "", official(Field, name)))
     for name, dt, val in itertools.product(("CX_1", "CX_4", "XPN_1", "VARIES_1", "CX_99", None),
                                            (None, "ST", "HD", "CE", "NM", "varies"), (None, "a", "a&b", "12")):
-        add("ctor:Component:%s:%s:%s" % (name, dt, val), ctor(Component, name, dt, val))
+        add("ctor:Component:%s:%s:%s" % (name, dt, val), ctor(Component, name, dt, val), (dt or "", official(Component, name)))
     for name, dt, val in itertools.product(("HD_1", "HD_2", "VARIES_1", "HD_99", None), (None, "ST", "NM", "IS", "varies"),
                                            (None, "x", "12", "x" * 300)):
-        add("ctor:SubComponent:%s:%s:%s" % (name, dt, val), ctor(SubComponent, name, dt, val))
+        add("ctor:SubComponent:%s:%s:%s" % (name, dt, val), ctor(SubComponent, name, dt, val), (dt or "", official(SubComponent, name)))
     for name in ("PID", "QPD", "ZIN", "XXX", "MSH", None):
         add("ctor:Segment:%s" % name, (lambda n: lambda lvl: Segment(n, version=v, validation_level=lvl))(name))
     for name in ("ADT_A01_INSURANCE", "ADT_A01", "NOPE", None):
@@ -167,7 +179,7 @@ def lockstep(args):
     from .c05 import report
     v, lo, hi = args
     out = []
-    for label, fn in scenarios(v)[lo:hi]:
+    for label, fn, dts in scenarios(v)[lo:hi]:
         res = {}
         for name, L in (("s", 1), ("t", 2)):
             try:
@@ -185,7 +197,7 @@ def lockstep(args):
                 res[name] = (exc_name(ex), [], [], [])
         out.append({"what": "call:" + label.split(":")[0], "conc": v, "out_s": res["s"][0], "out_t": res["t"][0], "enc_s": res["s"][1],
                     "enc_t": res["t"][1], "rep_s": res["s"][2], "rep_t": res["t"][2], "kinds_s": res["s"][3], "step": 0,
-                    "detail": [label]})
+                    "detail": [label], "dt_given": dts[0], "dt_official": dts[1]})
     return out
 
 
